@@ -1,5 +1,155 @@
 import Verif.Gen.Currency
+import Verif.Lemmas.C18
+/-! # C18 — currency arithmetic is exact or fails loudly
+
+Every theorem here is about the definitions in `Verif/Gen/Currency.lean`, which `go/xlate` REGENERATES from
+`core/currency/currency.go` before each build (bin/check deletes the file first). A change of the Go source changes
+the definitions; the theorems then hold of the new code or the build fails.
+
+Shape of an integer spec: `f args = if <exact result representable> then .ok <exact result> else .err <kind>`, the
+exact result being computed in `Nat`/`Int` (no wrap-around) and embedded with `BitVec.ofNat 64` — below `2^64` that
+embedding is injective, so the returned bits are pinned. `.panic` never occurs (`no_panic`). -/
 namespace Verif.Props.C18
-open Verif.Gen.Currency
-theorem generated_functions : generatedFunctions = ["AddCoin", "AddInt64", "Coin_Float64", "Coin_Int64", "Coin_ToZCN", "DistributeCoin", "Float64ToCoin", "Int64ToCoin", "Min", "MinusCoin", "MinusInt64", "MultCoin", "MultFloat64", "ParseZCN"] := by decide
+open Verif.GoSem Verif.Gen Verif.Gen.Currency Verif.Lemmas.C18
+
+/-- pins the set of translated functions: a function added to currency.go must get its theorems here -/
+theorem generated_functions : generatedFunctions =
+    ["AddCoin", "AddInt64", "Coin_Float64", "Coin_Int64", "Coin_ToZCN", "DistributeCoin", "Float64ToCoin",
+     "Int64ToCoin", "Min", "MinusCoin", "MinusInt64", "MultCoin", "MultFloat64", "ParseZCN"] := by decide
+
+/-! ## integer helpers -/
+
+theorem addCoin_spec (a b : Coin) :
+    AddCoin a b = if a.toNat + b.toNat < 2 ^ 64 then .ok (BitVec.ofNat 64 (a.toNat + b.toNat))
+      else .err .ErrUint64AddOverflow := by
+  have ha := a.isLt
+  have hb := b.isLt
+  unfold AddCoin
+  simp only [BitVec.lt_def, BitVec.toNat_add]
+  by_cases h : a.toNat + b.toNat < 2 ^ 64
+  · rw [if_neg (by omega), if_pos h]
+    exact congrArg Res.ok (BitVec.eq_of_toNat_eq (by simp))
+  · rw [if_pos (by omega), if_neg h]
+
+theorem multCoin_spec (c b : Coin) :
+    MultCoin c b = if c.toNat * b.toNat < 2 ^ 64 then .ok (BitVec.ofNat 64 (c.toNat * b.toNat))
+      else .err .ErrUint64MultOverflow := by
+  unfold MultCoin
+  by_cases hc0 : c = 0#64
+  · subst hc0; simp
+  · have hcpos := toNat_pos_of_ne_zero c hc0
+    simp only [ne_eq, hc0, not_false_eq_true, if_true, if_false]
+    have hmul : (c * b).toNat = (c.toNat * b.toNat) % 2 ^ 64 := BitVec.toNat_mul c b
+    by_cases h : c.toNat * b.toNat < 2 ^ 64
+    · have hq : (c * b) / c = b := by
+        apply BitVec.eq_of_toNat_eq
+        rw [BitVec.toNat_udiv, hmul, Nat.mod_eq_of_lt h, Nat.mul_div_cancel_left _ hcpos]
+      rw [if_neg (by simp [hq]), if_pos h]
+      exact congrArg Res.ok (BitVec.eq_of_toNat_eq (by rw [hmul]; simp))
+    · have hq : (c * b) / c ≠ b := by
+        intro heq
+        have h1 := congrArg BitVec.toNat heq
+        rw [BitVec.toNat_udiv, hmul] at h1
+        have hlt : (c.toNat * b.toNat) % 2 ^ 64 < c.toNat * b.toNat := by omega
+        have h2 : (c.toNat * b.toNat) % 2 ^ 64 / c.toNat < b.toNat := Nat.div_lt_of_lt_mul hlt
+        omega
+      rw [if_pos hq, if_neg h]
+
+theorem minusCoin_spec (c b : Coin) :
+    MinusCoin c b = if b.toNat ≤ c.toNat then .ok (BitVec.ofNat 64 (c.toNat - b.toNat))
+      else .err .ErrUint64MinusOverflow := by
+  have hc := c.isLt
+  have hb := b.isLt
+  unfold MinusCoin
+  simp only [gt_iff_lt, BitVec.lt_def]
+  by_cases h : b.toNat ≤ c.toNat
+  · rw [if_neg (by omega), if_pos h]
+    refine congrArg Res.ok (BitVec.eq_of_toNat_eq ?_)
+    simp [BitVec.toNat_sub]
+    omega
+  · rw [if_pos (by omega), if_neg h]
+
+/-- `int64 → Coin`: the signed value when it is non-negative -/
+theorem int64ToCoin_spec (a : I64) :
+    Int64ToCoin a = if a.toInt < 0 then .err .ErrInt64UnderflowsUint64 else .ok (BitVec.ofNat 64 a.toInt.toNat) := by
+  unfold Int64ToCoin
+  simp only [slt_zero_iff]
+  by_cases h : a.toInt < 0
+  · rw [if_pos h, if_pos h]
+  · rw [if_neg h, if_neg h, toInt_nonneg_toNat a (by omega)]
+    simp
+
+/-- `Coin → int64`: the result's signed value is the amount, when it is below `2^63` -/
+theorem coinInt64_spec (c : Coin) :
+    Coin_Int64 c = if c.toNat < 2 ^ 63 then .ok (BitVec.ofInt 64 c.toNat) else .err .ErrUint64OverflowsInt64 := by
+  have := c.isLt
+  unfold Coin_Int64
+  simp only [slt_zero_iff]
+  rw [BitVec.toInt_eq_toNat_cond]
+  by_cases h : c.toNat < 2 ^ 63
+  · rw [if_neg (by split <;> omega), if_pos h]
+    exact congrArg Res.ok (BitVec.eq_of_toNat_eq (by simp))
+  · rw [if_pos (by split <;> omega), if_neg h]
+
+/-- the embedding used in `coinInt64_spec` is faithful: the returned int64 reads back as the amount -/
+theorem coinInt64_value (c : Coin) (h : c.toNat < 2 ^ 63) : (BitVec.ofInt 64 (c.toNat : Int)).toInt = c.toNat := by
+  rw [BitVec.toInt_ofInt]
+  simp only [Int.bmod]
+  omega
+
+theorem addInt64_spec (c : Coin) (a : I64) :
+    AddInt64 c a = if a.toInt < 0 then .err .ErrInt64UnderflowsUint64
+      else if c.toNat + a.toInt.toNat < 2 ^ 64 then .ok (BitVec.ofNat 64 (c.toNat + a.toInt.toNat))
+      else .err .ErrUint64AddOverflow := by
+  unfold AddInt64
+  rw [int64ToCoin_spec]
+  by_cases h : a.toInt < 0
+  · simp only [if_pos h]
+  · simp only [if_neg h, addCoin_spec, toNat_ofNat_toInt a h]
+
+theorem minusInt64_spec (c : Coin) (a : I64) :
+    MinusInt64 c a = if a.toInt < 0 then .err .ErrInt64UnderflowsUint64
+      else if a.toInt.toNat ≤ c.toNat then .ok (BitVec.ofNat 64 (c.toNat - a.toInt.toNat))
+      else .err .ErrUint64MinusOverflow := by
+  unfold MinusInt64
+  rw [int64ToCoin_spec]
+  by_cases h : a.toInt < 0
+  · simp only [if_pos h]
+  · simp only [if_neg h, minusCoin_spec, toNat_ofNat_toInt a h]
+
+/-- quotient and remainder are exact; a negative or zero number of parts is an error, never a panic -/
+theorem distribute_spec (c : Coin) (a : I64) :
+    DistributeCoin c a = if a.toInt < 0 then .err .ErrInt64UnderflowsUint64
+      else if a.toInt = 0 then .err .ErrDivideByZero
+      else .ok (BitVec.ofNat 64 (c.toNat / a.toInt.toNat), BitVec.ofNat 64 (c.toNat % a.toInt.toNat)) := by
+  unfold DistributeCoin
+  rw [int64ToCoin_spec]
+  by_cases h : a.toInt < 0
+  · simp only [if_pos h]
+  · simp only [if_neg h]
+    have hn := toInt_nonneg_toNat a (by omega)
+    rw [hn, ofNat_toNat64]
+    by_cases h0 : a = 0#64
+    · subst h0; simp
+    · have hi : ¬ a.toInt = 0 := by
+        intro hz
+        apply h0
+        apply BitVec.eq_of_toNat_eq
+        rw [← hn, hz]; rfl
+      simp only [if_neg h0, if_neg hi]
+      refine congrArg Res.ok (Prod.ext ?_ ?_)
+      · apply BitVec.eq_of_toNat_eq
+        rw [BitVec.toNat_udiv, BitVec.toNat_ofNat,
+          Nat.mod_eq_of_lt (Nat.lt_of_le_of_lt (Nat.div_le_self _ _) c.isLt)]
+      · apply BitVec.eq_of_toNat_eq
+        rw [BitVec.toNat_umod, BitVec.toNat_ofNat,
+          Nat.mod_eq_of_lt (Nat.lt_of_le_of_lt (Nat.mod_le _ _) c.isLt)]
+
+theorem min_spec (a b : Coin) : Currency.Min a b = .ok (BitVec.ofNat 64 (min a.toNat b.toNat)) := by
+  unfold Currency.Min
+  simp only [BitVec.lt_def]
+  by_cases h : a.toNat < b.toNat
+  · rw [if_pos h, Nat.min_eq_left (by omega)]; simp
+  · rw [if_neg h, Nat.min_eq_right (by omega)]; simp
+
 end Verif.Props.C18
